@@ -7,6 +7,7 @@ import (
 	"bufio"
 	"bytes"
 	"context"
+	"crypto/tls"
 	"errors"
 	"fmt"
 	"io"
@@ -17,6 +18,7 @@ import (
 	"sync"
 	"time"
 
+	"github.com/prometheus/client_golang/prometheus"
 	"github.com/saucelabs/forwarder"
 	"github.com/saucelabs/forwarder/log"
 	"github.com/saucelabs/forwarder/ruleset"
@@ -41,8 +43,9 @@ type Rig struct {
 	dials    []string
 	msgs     []Msg
 	accepts  map[string]int
-	origin   net.Listener
-	upstream net.Listener
+	origin    net.Listener
+	originTLS net.Listener
+	upstream  net.Listener
 	// UpstreamRequire, when non-empty, makes the upstream proxy answer 407 unless Proxy-Authorization equals it.
 	UpstreamRequire string
 	closed          chan struct{}
@@ -66,6 +69,9 @@ func (r *Rig) Close() {
 	close(r.closed)
 	r.origin.Close()
 	r.upstream.Close()
+	if r.originTLS != nil {
+		r.originTLS.Close()
+	}
 }
 
 func (r *Rig) OriginAddr() string   { return r.origin.Addr().String() }
@@ -179,6 +185,10 @@ func (r *Rig) Since(m Mark) ([]string, []Msg) {
 // redirect=true: the upstream proxy's address is dialled as is, every other address is connected to the
 // scripted origin (so any host spelling "resolves");  redirect=false: addresses are dialled for real.
 func (r *Rig) Dialer(redirect bool) func(ctx context.Context, network, addr string) (net.Conn, error) {
+	return r.dialer(redirect, false)
+}
+
+func (r *Rig) dialer(redirect, toTLS bool) func(ctx context.Context, network, addr string) (net.Conn, error) {
 	var d net.Dialer
 	return func(ctx context.Context, network, addr string) (net.Conn, error) {
 		r.mu.Lock()
@@ -186,6 +196,9 @@ func (r *Rig) Dialer(redirect bool) func(ctx context.Context, network, addr stri
 		r.mu.Unlock()
 		if redirect && addr != r.UpstreamAddr() {
 			addr = r.OriginAddr()
+			if toTLS && r.originTLS != nil {
+				addr = r.originTLS.Addr().String()
+			}
 		}
 		ctx, cancel := context.WithTimeout(ctx, 3*time.Second)
 		defer cancel()
@@ -206,6 +219,7 @@ type ProxySpec struct {
 	Handler      bool // serve through the http.Handler implementation (TestingHTTPHandler)
 	ReqModifiers []forwarder.RequestModifier
 	PAC          forwarder.PACResolver // mutually exclusive with Upstream
+	MITM         bool                  // MITM every CONNECT; upstream connections go to the TLS origin
 }
 
 // Proxy is a running proxy under test.
@@ -241,8 +255,13 @@ func (r *Rig) StartProxy(s ProxySpec) (*Proxy, error) {
 	if err != nil {
 		return nil, err
 	}
+	if s.MITM {
+		cfg.MITM = forwarder.DefaultMITMConfig()
+		cfg.PromRegistry = prometheus.NewRegistry()
+	}
 	tr := &http.Transport{
-		DialContext:           r.Dialer(!s.RealDial),
+		DialContext:           r.dialer(!s.RealDial, s.MITM),
+		TLSClientConfig:       &tls.Config{InsecureSkipVerify: true},
 		ResponseHeaderTimeout: 5 * time.Second,
 		IdleConnTimeout:       30 * time.Second,
 	}
